@@ -32,6 +32,18 @@ namespace chk {
   static std::map<void*, int> live_arena;
   static int next_arena = 0;
   static long alloc_count = 0, fault_at = 0, nullfree = 0, faults_thrown = 0;
+  // what the ALLOCATOR throws on the injected failure: std::bad_alloc, an exception class of its own derived from std::exception
+  // (as the shared-memory allocators of Boost.Interprocess do), or a type unrelated to std::exception. operator new[] keeps
+  // std::bad_alloc (the language requires it).
+  static int fault_kind = 0;
+  struct ArenaExhausted : std::exception { const char* what() const noexcept override { return "bad_alloc"; } };
+  struct RawFault {};
+  [[noreturn]] static void throw_fault(){
+    faults_thrown++;
+    if(fault_kind == 1) throw ArenaExhausted();
+    if(fault_kind == 2) throw RawFault();
+    throw std::bad_alloc();
+  }
   static std::vector<std::string> errors;
   static std::map<void*, size_t> live_arr;     // arrays obtained with operator new[] inside remove_key
   static bool track_arr = false, in_hook = false;
@@ -75,7 +87,7 @@ struct CheckAlloc {
   template<typename U> CheckAlloc(const CheckAlloc<U>& o) : arena(o.arena) {}
   T* allocate(size_t n){
     chk::alloc_count++;
-    if(chk::fault_at && chk::alloc_count == chk::fault_at){ chk::faults_thrown++; throw std::bad_alloc(); }
+    if(chk::fault_at && chk::alloc_count == chk::fault_at) chk::throw_fault();
     size_t bytes = n * sizeof(T);
     void* p = ::operator new(bytes ? bytes : 1);
     chk::live[p] = bytes;
@@ -227,6 +239,7 @@ static int run_cases(const char* path, long skip){
       printf("case %s\n", w[1].c_str());
       for(int i = 0; i < 4; i++) objs[i] = 0;      // objects of a previous (failed) case are abandoned deliberately
       chk::reset(atol(w[2].c_str()));
+      { unsigned long h = 1469598103934665603UL; for(char ch : w[1]){ h ^= (unsigned char)ch; h *= 1099511628211UL; } chk::fault_kind = (int)(((h >> 11) + (unsigned long)chk::fault_at) % 3); }
       opidx = 0;
       continue;
     }
@@ -290,6 +303,8 @@ static int run_cases(const char* path, long skip){
       else if(kind == "del"){ CT* t = objs[s]; objs[s] = 0; delete t; }
       else { outcome = "unknown-op"; }
     }catch(std::bad_alloc& e){ outcome = "fail"; msg = "bad_alloc";
+    }catch(chk::ArenaExhausted& e){ outcome = "fail"; msg = "bad_alloc";
+    }catch(chk::RawFault& e){ outcome = "fail"; msg = "bad_alloc";
     }catch(std::exception& e){ outcome = "fail"; msg = e.what(); for(char& c : msg) if(c == '\n' || c == ' ') c = '_'; if(msg.size() > 90) msg.resize(90);
     }catch(...){ outcome = "fail"; msg = "unknown-exception"; }
     printf("r %d %s %s %s\n", opidx, kind.c_str(), outcome.c_str(), msg.empty() ? "-" : msg.c_str());
